@@ -765,7 +765,10 @@ pub(crate) async fn commit_transaction(
         if dataset.manifest.version != read_version && (read_version != 0 || strict_overwrite) {
             // If the dataset version is not the same as the read version, we need to
             // checkout the read version.
-            dataset.checkout_version(read_version).await?
+            // Stay on the branch the dataset is on, a bare version number means main.
+            dataset
+                .checkout_version((dataset.manifest.branch.clone(), Some(read_version)))
+                .await?
         } else {
             // If the dataset version is the same as the read version, we can use it directly.
             dataset.clone()
